@@ -230,11 +230,25 @@ func runC05(r *hx.Run, replay string) {
 			if rr.Intn(2) == 0 {
 				global = append(global, "--show-duplicates")
 			}
+			// the verdict must not depend on which other outputs are written
+			switch rr.Intn(4) {
+			case 0:
+				args = append(args, "--checkstyle", "checkstyle.xml")
+			case 1:
+				args = append(args, "--teamcity")
+			}
 			c05Eval(r, c05Case{Command: "lint", Config: cfg, File: file, Args: args, Global: global})
 		}
 		if i%4 == 0 {
 			fo := hx.Pick(rr, c05Sev)
-			c05Eval(r, c05Case{Command: "ci", Config: cfg, File: file, Args: []string{"--fail-on", fo}})
+			ciArgs := []string{"--fail-on", fo}
+			switch rr.Intn(3) {
+			case 0:
+				ciArgs = append(ciArgs, "--checkstyle", "checkstyle.xml")
+			case 1:
+				ciArgs = append(ciArgs, "--teamcity")
+			}
+			c05Eval(r, c05Case{Command: "ci", Config: cfg, File: file, Args: ciArgs})
 		}
 	}
 }
